@@ -190,6 +190,13 @@ Definition cyclic_indices (n : nat) (r : pres) : option (list (list nat)) :=
 Definition period_code (r : pres) : Z :=
   match r with POk d _ => Z.of_nat d | PNotImpl => (-1)%Z | PInvalid => (-2)%Z end.
 
+(* DiGraph.is_aperiodic = (period == 1): 1 / 0, or the error code of period *)
+Definition dg_is_aperiodic (r : pres) : Z :=
+  match r with POk d _ => if d =? 1 then 1%Z else 0%Z | _ => period_code r end.
+(* MarkovChain.is_aperiodic: irreducible -> digraph.is_aperiodic, else period == 1; both are (period == 1) *)
+Definition mc_is_aperiodic (per : Z) : Z :=
+  if (per <? 0)%Z then per else if (per =? 1)%Z then 1%Z else 0%Z.
+
 (* MarkovChain.period: irreducible -> digraph.period; else lcm over
    digraph.subgraph(rec_class).period; aux = SciPy's outputs on each subgraph *)
 Definition bfs_aux := (bool * list nat * list Z)%type.
@@ -264,7 +271,9 @@ Record gcase := {
   i_scc : list (list nat); i_sink : list (list nat);
   i_period : Z;                                   (* DiGraph.period, -1 = NotImplementedError *)
   i_cyclic : option (list (list nat));            (* DiGraph.cyclic_components_indices *)
-  i_mc_period : Z;                                (* MarkovChain.period *)
+  i_mc_period : Z;                                (* MarkovChain.period; -3 = no MarkovChain in this case *)
+  i_aper : Z;                                     (* DiGraph.is_aperiodic: 1/0, -1 = NotImplementedError *)
+  i_mc_aper : Z;                                  (* MarkovChain.is_aperiodic: 1/0, -3 = not applicable *)
 }.
 
 Definition check_repo (c : gcase) : bool :=
@@ -275,8 +284,10 @@ Definition check_repo (c : gcase) : bool :=
   natss_eqb (sink_scc_indices n (s_num c) (s_proj c) es) (i_sink c) &&
   (period_code r =? i_period c)%Z &&
   onatss_eqb (cyclic_indices n r) (i_cyclic c) &&
+  (dg_is_aperiodic r =? i_aper c)%Z &&
   ((i_mc_period c =? -3)%Z ||   (* -3: DiGraph-only case, MarkovChain.period not observed *)
-   (mc_period n e (s_num c) (s_proj c) (s_order c) (s_pred c) (s_aux c) =? i_mc_period c)%Z).
+   ((mc_period n e (s_num c) (s_proj c) (s_order c) (s_pred c) (s_aux c) =? i_mc_period c)%Z &&
+    (mc_is_aperiodic (mc_period n e (s_num c) (s_proj c) (s_order c) (s_pred c) (s_aux c)) =? i_mc_aper c)%Z)).
 
 Definition check_valid (c : gcase) : bool :=
   let n := g_n c in let e := adj_edge (g_adj c) in
